@@ -74,7 +74,9 @@ Proof. exact add_result_all_or_nothing. Qed.
 Print Assumptions C04_add_result_all_or_nothing.
 
 (* C04_lookup_sound with the WINDOW of generate_hash_key: the include recorder runs in file system `ro_fs op`, and
-   add_result stats the files later, in a file system from which any files may have been REMOVED in between (sub_fs).
+   add_result stats the files later, in a file system in which, in between, any files may have been REMOVED or
+   REWRITTEN - a file that is not the one the recorder saw was written at or after the start instant (win_ok: mtime or
+   ctime >= start; C04_record_instant_sound is about why) - add_result then stores no time stamps for it.
    The conclusion is the same: every include the recorder had to remember is unchanged at an accepted lookup. *)
 Theorem C04_lookup_sound_window :
   forall (D : Type) (Deqb : D -> D -> bool) (H : bytes -> D) (HT : option bytes -> option N -> D),
@@ -82,7 +84,7 @@ Theorem C04_lookup_sound_window :
     (forall a b : bytes, H a = H b -> a = b) ->
     (forall od om od' om', HT od om = HT od' om' -> od = od' /\ om = om') ->
     forall (cfg : config) (ops : list (rec_op * fsnap)) (fs1 : fsnap) (date1 : bytes) (k : key),
-      Forall (fun o => sub_fs (snd o) (ro_fs (fst o))) ops ->
+      Forall (fun o => win_ok (ro_start (fst o)) (snd o) (ro_fs (fst o))) ops ->
       (file_stat_matches cfg = true -> use_ctime_for_stat cfg = true ->
        forall op, In op (map fst ops) -> stat_trust (ro_fs op) fs1) ->
       lookup_result_digest D Deqb H HT cfg fs1 date1 (run_recs_w D H HT cfg ops) = Some k ->
@@ -90,6 +92,16 @@ Theorem C04_lookup_sound_window :
         forall p, must_record cfg op p -> unchanged cfg (ro_fs op) (ro_date op) fs1 date1 p.
 Proof. exact lookup_sound_w. Qed.
 Print Assumptions C04_lookup_sound_window.
+
+(* add_result stores no mtime / ctime for a file written at or after the compile start (should_cache_time): a file
+   rewritten after it was hashed can therefore never be accepted by the (size, mtime, ctime) shortcut. *)
+Theorem C04_no_stat_for_new_files :
+  forall (D : Type) (fs : fsnap) (start : N) (f : idigest D * path) (ie : include_entry D) (nd : node),
+    mk_include D fs start f = Some ie -> fs_get fs (snd f) = Some nd ->
+    (start <= n_mtime nd \/ start <= n_ctime nd) ->
+    ie_mtime D ie = None /\ ie_ctime D ie = None.
+Proof. exact mk_include_no_stat_for_new. Qed.
+Print Assumptions C04_no_stat_for_new_files.
 
 (* hash_working_directory: the argument list generate_hash_key hands to the preprocessor-cache key ends with the
    working directory, so two requests from different directories never have the same list - whatever the spelling
@@ -223,6 +235,22 @@ Theorem C04_markers_complete :
 Proof. exact markers_complete_recorder. Qed.
 Print Assumptions C04_markers_complete.
 
+(* Which announced paths are NOT remembered because they are "the input file": only a path that resolves (relative
+   paths joined to the working directory) to the input path itself.  A regular file whose marker path merely looks
+   like the input (x.c, announced as "sub/../x.c", when the input is sub/x.c) is recorded. *)
+Theorem C04_marker_recorded :
+  forall (D : Type) (H : bytes -> D) (HT : option bytes -> option N -> D) (cfg : config) (fs : fsnap) (start : N)
+         (date : bytes) (input : path) (cwd : bytes) (p fl : bytes) (inc inc' : list (path * idigest D)) (nd : node),
+    marker_step D H HT cfg fs start date input cwd p fl inc = Some inc' ->
+    is_angle (normalized_include_path p) = false ->
+    is_angle (resolve cwd (normalized_include_path p)) = false ->
+    (existsb (fun c => N.eqb c 51) fl && skip_system_headers cfg) = false ->
+    bytes_eqb (resolve cwd (normalized_include_path p)) input = false ->
+    fs_get fs (resolve cwd (normalized_include_path p)) = Some nd -> n_kind nd = KFile ->
+    inc_mem D (resolve cwd (normalized_include_path p)) inc' = true.
+Proof. exact marker_recorded. Qed.
+Print Assumptions C04_marker_recorded.
+
 (* ---------------- non-vacuity ---------------- *)
 Local Open Scope string_scope.
 
@@ -330,4 +358,28 @@ Example C04_vanished_header_example :
   results Dg (fst (apply_rec_w Dg Hx HTx cfg_default (entry_new Dg) op_ab fs_gone)) = [] /\
   lookup_result_digest Dg bytes_eqb Hx HTx cfg_default fs_b []
      (fst (apply_rec_w Dg Hx HTx cfg_default (entry_new Dg) op_ab fs_gone)) = None.
+Proof. vm_compute. split; reflexivity. Qed.
+
+(* the wrapper idiom: input arch/foo.c includes "../foo.c"; /w/foo.c is recorded although "foo.c" is a suffix of the
+   input path *)
+Example C04_suffix_path_example :
+  match process_preprocessed_file Dg Hx HTx (cfg_of 9)
+          [(bs "/w/arch/foo.c", hdr (bs "I") 90 90); (bs "/w/foo.c", hdr (bs "F") 90 90); (bs "/w/arch/tune.h", hdr (bs "T") 90 90)]
+          100 [] (bs "/w/arch/foo.c") (bs "/w")
+          (render_lines [LMarker (bs "1") (bs "arch/foo.c") []; LMarker (bs "1") (bs "arch/tune.h") (bs " 1");
+                         LMarker (bs "1") (bs "arch/../foo.c") (bs " 1"); LBody (bs "int value = 10 + 1;");
+                         LMarker (bs "2") (bs "arch/foo.c") (bs " 2"); LBody []]) with
+  | LmOk _ inc _ => map fst inc = [bs "/w/arch/tune.h"; bs "/w/foo.c"]
+  | _ => False
+  end.
+Proof. vm_compute. reflexivity. Qed.
+
+(* a header rewritten (same size, old mtime) after the recorder hashed it: no time stamps are stored, and with
+   file_stat_matches + use_ctime_for_stat the lookup still compares contents and misses *)
+Definition fs_rewritten : fsnap := [(bs "a.h", hdr (bs "AAAA") 90 90); (bs "b.h", hdr (bs "CCCC") 90 103)].
+Example C04_rewritten_in_window_example :
+  lookup_result_digest Dg bytes_eqb Hx HTx (cfg_of 25) fs_rewritten []
+     (fst (apply_rec_w Dg Hx HTx (cfg_of 25) (entry_new Dg) op_ab fs_rewritten)) = None /\
+  lookup_result_digest Dg bytes_eqb Hx HTx (cfg_of 25) fs_a []
+     (fst (apply_rec_w Dg Hx HTx (cfg_of 25) (entry_new Dg) op_ab fs_a)) = Some (bs "k1").
 Proof. vm_compute. split; reflexivity. Qed.
